@@ -6,17 +6,11 @@ import ScenicModel.Props.C06Resolve
 namespace Scenic.C06
 open Scenic.Spec
 
-theorem eq_of_mem_length_le_one {α} {l : List α} (h : l.length ≤ 1) {a b : α} (ha : a ∈ l) (hb : b ∈ l) : a = b := by
-  match l, h with
-  | [], _ => simp at ha
-  | [x], _ => simp at ha hb; rw [ha, hb]
-
-/-- **Dependency order, for specifiers that may modify at most one property** (all built-ins: `on`
-modifies `position` only).  Every dependency of an evaluated specifier has a specifier, evaluated strictly
-earlier; if the dependency is modified, its modifier is evaluated after that specifier and strictly before
-the dependent specifier -- so the value read is final. -/
-theorem topo_order_single_modifiable {C : ClassInfo} {S : List Spec} {o : Outcome} (h : resolve C S = .ok o)
-    (h1 : ∀ s ∈ S, s.modifying = true → s.modifiable.length ≤ 1) :
+/-- **Dependency order, full statement.**  Every dependency of an evaluated specifier has a specifier,
+evaluated strictly earlier; if the dependency is modified, its modifier is evaluated after that specifier and
+strictly before the dependent specifier -- so the value read is final.  No hypothesis on the specifiers: a
+modifying specifier may modify any number of properties (`dfs` visits the specifiers of all of them). -/
+theorem topo_order_full {C : ClassInfo} {S : List Spec} {o : Outcome} (h : resolve C S = .ok o) :
     ∀ n ∈ o.order, ∀ dep ∈ depsOf C S n,
       ∃ a, get o.assign dep = some a ∧ a ∈ o.order ∧ pos o.order a < pos o.order n ∧
         ∀ m, get o.modifier dep = some m →
@@ -32,30 +26,23 @@ theorem topo_order_single_modifiable {C : ClassInfo} {S : List Spec} {o : Outcom
   | some m =>
     rw [hg] at hd
     obtain ⟨hmo, hlt⟩ := hd
-    -- the property recorded for `m` in `modifying_inv` is `dep`
-    obtain ⟨pre, hpre, _, _, hmo', _⟩ := resolve_ok h
-    obtain ⟨hnames, ns, ms, _, hm', rfl⟩ := assignPhase_ok hpre
-    have hk : (o.modifier.map (·.1)).Nodup := by
-      rw [hmo']; exact modPass_keys_nodup _ (st := ⟨ns.props, []⟩) (by simp) hm'
-    have hmem := mem_of_get hg
-    have hsome := (modInv_spec o.modifier m).2 ⟨dep, hmem⟩
-    cases hmi : modInv o.modifier m with
-    | none => rw [hmi] at hsome; cases hsome
-    | some p' =>
-      have hmem' := (modInv_spec o.modifier m).1 p' hmi
-      have hg' := get_of_mem_nodup hk hmem'
-      obtain ⟨M, hM, hMm, hMn, hMp, _⟩ := resolve_modifier h dep m hg
-      obtain ⟨M', hM', _, hMn', hMp', _⟩ := resolve_modifier h p' m hg'
-      have : M = M' := by
-        apply nodup_map_inj hnames hM hM'
-        exact Node.user.inj (hMn.symm.trans hMn')
-      subst this
-      have hpp : p' = dep := eq_of_mem_length_le_one (h1 M hM hMm) hMp' hMp
-      subst hpp
-      obtain ⟨a, ha, hao, hlt'⟩ := hmods m hmo p' (modInv_mem_modProps _ hmi)
-      refine ⟨a, ha, hao, by omega, fun m' hm' => ?_⟩
-      cases hm'
-      exact ⟨hmo, hlt', hlt⟩
+    obtain ⟨a, ha, hao, hlt'⟩ := hmods m hmo dep (mem_modProps (mem_of_get hg))
+    refine ⟨a, ha, hao, by omega, fun m' hm' => ?_⟩
+    cases hm'
+    exact ⟨hmo, hlt', hlt⟩
+
+/-- **A modifier runs after the specifier it modifies**, for every property it modifies: both are evaluated,
+they are different specifiers, and the specifier comes strictly first. -/
+theorem modifier_after_specifier {C : ClassInfo} {S : List Spec} {o : Outcome} (h : resolve C S = .ok o)
+    (p : String) (m : Node) (hm : get o.modifier p = some m) :
+    ∃ a, get o.assign p = some a ∧ a ≠ m ∧ a ∈ o.order ∧ m ∈ o.order ∧ pos o.order a < pos o.order m := by
+  obtain ⟨_, hmem, _, hmods⟩ := topo_order h
+  obtain ⟨pre, hpre, _, _, hmo, hno⟩ := resolve_ok h
+  have hmo' : m ∈ o.order := by
+    rw [hmem, hno]
+    exact (assign_range (assignPhase_ok hpre)).2 p m (by rw [← hmo]; exact hm)
+  obtain ⟨a, ha, hao, hlt⟩ := hmods m hmo' p (mem_modProps (mem_of_get hm))
+  exact ⟨a, ha, fun hEq => by subst hEq; omega, hao, hmo', hlt⟩
 
 /-- **A reported cycle is real**: when resolution fails with "depends on itself" (or with a missing
 dependency), no evaluation order exists at all -- there is no rank function on the specifiers that
@@ -173,13 +160,23 @@ def winnerOf (r : Except Err Outcome) (p : String) : Option Node :=
 /-- The hypothesis "at most one modifying specifier" cannot be dropped: with two (which no Scenic
 program can write -- `on` is the only modifying specifier) the winner depends on the order. -/
 theorem two_modifiers_order_dependent :
-    winnerOf (resolve ⟨[], [], false⟩ [wM1, wM2]) "p" = some (.user "M1") ∧
-    winnerOf (resolve ⟨[], [], false⟩ [wM2, wM1]) "p" = some (.user "M2") := by decide
+    winnerOf (resolve ⟨[], []⟩ [wM1, wM2]) "p" = some (.user "M1") ∧
+    winnerOf (resolve ⟨[], []⟩ [wM2, wM1]) "p" = some (.user "M2") := by decide
+
+/-- Why `final_reported_partial` needs `s.modifying = false` (a genuine defect of /repo, reachable from a Scenic
+program: `class Fin: parentOrientation[final]: ...` then `new Fin on region`): the modifying specifier `on`
+specifies the final property `parentOrientation` and resolution succeeds, while the non-modifying
+`in region` (same property) is refused. -/
+theorem final_by_modifier_unreported_witness :
+    winnerOf (resolve ⟨[("position", []), ("parentOrientation", []), ("baseOffset", []), ("contactTolerance", []),
+        ("onDirection", [])], ["parentOrientation"]⟩ [exOn]) "parentOrientation" = some (.user "On") ∧
+    errOf (resolve ⟨[("position", []), ("parentOrientation", [])], ["parentOrientation"]⟩
+        [⟨"In", [("position", 1), ("parentOrientation", 3)], [], false, []⟩]) = some .finalProp := by decide
 
 def wVis : Spec := ⟨"Visible/VisibleFrom", [("position", 3), ("_observingEntity", 1)], ["regionContainedIn"], false, []⟩
 def wNVis : Spec := ⟨"NotVisible/NotVisibleFrom", [("position", 3), ("_nonObservingEntity", 1)], ["regionContainedIn"], false, []⟩
 def wAt : Spec := ⟨"At", [("position", 1)], [], false, []⟩
-def wC : ClassInfo := ⟨[("position", []), ("regionContainedIn", []), ("_observingEntity", []), ("_nonObservingEntity", [])], [], false⟩
+def wC : ClassInfo := ⟨[("position", []), ("regionContainedIn", []), ("_observingEntity", []), ("_nonObservingEntity", [])], []⟩
 
 /-- Regression for the defect fixed in /repo commit 9d666edb: priorities [3, 1, 3] and [3, 3, 1] for
 `position` are both ties (before the fix the first order was accepted). -/
@@ -197,37 +194,9 @@ end Scenic.C06
 namespace Scenic.C06
 open Scenic.Spec
 
-/-- With the shape of the proposed fix (`orderAllModified`: `dfs` visits the specifiers of *all* the
-properties a modifying specifier modifies) the full dependency-order statement holds without any
-hypothesis on the modifiable sets. -/
-theorem topo_order_all_modified {C : ClassInfo} {S : List Spec} {o : Outcome} (h : resolve C S = .ok o)
-    (hall : C.orderAllModified = true) :
-    ∀ n ∈ o.order, ∀ dep ∈ depsOf C S n,
-      ∃ a, get o.assign dep = some a ∧ a ∈ o.order ∧ pos o.order a < pos o.order n ∧
-        ∀ m, get o.modifier dep = some m →
-          m ∈ o.order ∧ pos o.order a < pos o.order m ∧ pos o.order m < pos o.order n := by
-  intro n hn dep hdep
-  obtain ⟨_, _, hdeps, hmods⟩ := topo_order h
-  have hd := hdeps n hn dep hdep
-  cases hg : get o.modifier dep with
-  | none =>
-    rw [hg] at hd
-    obtain ⟨a, ha, hao, hlt⟩ := hd
-    exact ⟨a, ha, hao, hlt, fun m hm => by cases hm⟩
-  | some m =>
-    rw [hg] at hd
-    obtain ⟨hmo, hlt⟩ := hd
-    have hmem : dep ∈ modProps C.orderAllModified o.modifier m := by
-      rw [hall]
-      simp only [modProps, if_true, List.mem_map, List.mem_filter, decide_eq_true_eq]
-      exact ⟨(dep, m), ⟨mem_of_get hg, rfl⟩, rfl⟩
-    obtain ⟨a, ha, hao, hlt'⟩ := hmods m hmo dep hmem
-    refine ⟨a, ha, hao, by omega, fun m' hm' => ?_⟩
-    cases hm'
-    exact ⟨hmo, hlt', hlt⟩
-
 def wS5 : Spec := ⟨"S5", [("c", 1)], [], false, []⟩
 def wS0 : Spec := ⟨"S0", [("b", 1)], ["a"], false, []⟩
+def wS0' : Spec := ⟨"S0", [("b", 1)], [], false, []⟩
 def wS1 : Spec := ⟨"S1", [("a", 1), ("b", 1), ("c", 3)], [], true, ["a", "b", "c"]⟩
 
 def evaluatedBefore (r : Except Err Outcome) (x y : Node) : Option Bool :=
@@ -235,13 +204,23 @@ def evaluatedBefore (r : Except Err Outcome) (x y : Node) : Option Bool :=
   | .ok o => some (decide (pos o.order x < pos o.order y))
   | .error _ => none
 
-/-- Why `topo_order_single_modifiable` needs its hypothesis at the pinned commit (latent defect, not
-reachable with the built-ins): `S1` may modify `b` and `c`; only the specifier of `c` is ordered before it,
-so `S1` "modifies" `b` before `S0` has specified it -- and the genuine cycle (`S0` needs `a`, which `S1`
-specifies) goes unreported.  With the shape of the proposed fix the cycle is reported. -/
-theorem multi_modifiable_unordered_witness :
-    evaluatedBefore (resolve ⟨[("c", ["b"])], [], false⟩ [wS5, wS0, wS1]) (.user "S1") (.user "S0") = some true ∧
-    winnerOf (resolve ⟨[("c", ["b"])], [], false⟩ [wS5, wS0, wS1]) "b" = some (.user "S0") ∧
-    errOf (resolve ⟨[("c", ["b"])], [], true⟩ [wS5, wS0, wS1]) = some .cycle := by decide
+/-- Regression for the defect fixed in /repo commit fe083d88 (`modifying_inv` kept one property per modifying
+specifier): `S1` modifies `b` and `c`.  It is evaluated after the specifiers of *both* (before the fix only
+after that of `c`, the last one), and the genuine cycle `S0` needs `a` (specified by `S1`), `S1` modifies
+`b` (specified by `S0`) is reported (before the fix it went unnoticed). -/
+theorem regression_multi_modifiable :
+    evaluatedBefore (resolve ⟨[], []⟩ [wS1, wS5, wS0']) (.user "S0") (.user "S1") = some true ∧
+    evaluatedBefore (resolve ⟨[], []⟩ [wS1, wS5, wS0']) (.user "S5") (.user "S1") = some true ∧
+    winnerOf (resolve ⟨[], []⟩ [wS1, wS5, wS0']) "a" = some (.user "S1") ∧
+    errOf (resolve ⟨[("c", ["b"])], []⟩ [wS5, wS0, wS1]) = some .cycle := by decide
+
+/-- Regression for the defect fixed in /repo commit c434d71a (the "modified twice" error was formatted with an
+undefined variable and surfaced as `NameError`): two modifying specifiers modifying one property are refused
+with the `modifiedTwice` error, in either order. -/
+theorem regression_modified_twice :
+    errOf (resolve ⟨[], []⟩ [wAt, ⟨"M1", [("position", 2)], [], true, ["position"]⟩, ⟨"M2", [("position", 3)], [], true, ["position"]⟩])
+      = some .modifiedTwice ∧
+    errOf (resolve ⟨[], []⟩ [⟨"M2", [("position", 3)], [], true, ["position"]⟩, wAt, ⟨"M1", [("position", 2)], [], true, ["position"]⟩])
+      = some .modifiedTwice := by decide
 
 end Scenic.C06
